@@ -7,9 +7,10 @@ from mc import terms as T, ref, gen
 from mc.enc import fresh
 from mc.run import Result
 from mc.props.c03 import same_node, same_value, shape
+from mc.snapshot import vsnap
 
 META = {
-    "rule": "every path x every (datum, multiplicity, order) combination x return_paths x every document; "
+    "rule": "(plus, H flavour: every modifier variant derived from a path object AFTER it was evaluated on the wrapped document) every path x every (datum, multiplicity, order) combination x return_paths x every document; "
             "a case is one (path, modifiers, document) triple; non-trivial = the selection is non-empty and "
             "the datum modifier is defined on every selected node; pairs whose selection is empty are run "
             "with every eighth modifier combination (must give [] / None)",
@@ -77,6 +78,8 @@ def replay(case):
     res = Result()
     p = case["path"]
     combos = [(case["datum"], case["multi"], case["order"])] if "datum" in case else None
+    if case.get("derived_after_evaluation"):
+        combos = None   # the derived variants are compared with all pre-built ones
     check_path(res, p, [case["doc"]], "replay", combos=combos)
     return list(res.violations.values())
 
@@ -120,11 +123,57 @@ def check_path(res, p, docs, pi, combos=None):
     for di, doc in enumerate(docs):
         d = fresh(doc)
         sel = ref.walk(p, d)
+        if sel and len(p[1]) <= 2 and not derive_after_evaluate(res, p, built, d, doc, sel, conc, (pi, di)):
+            return
         for n, (combo, (pt, obj)) in enumerate(built.items()):
             if not sel and n % 8 != 1 and len(built) > 8:
                 continue  # nothing selected: every modifier must give [] / None -- a sixth of the combinations is run
             if not check_case(res, pt, obj, combo, d, doc, sel, conc, (pi, di, combo)):
                 return
+
+
+def derive_after_evaluate(res, p, built, d, doc, sel, conc, key):
+    """H flavour: the modifiers derive a new path from a live object.  The base path is first evaluated on the
+    (wrapped) document, then every modifier variant is derived from that *evaluated* object and evaluated on the
+    same Data object: it must give what the variant built before any evaluation gives."""
+    from valida.data import Data
+    base = T.build_path(T.path(p[1]))
+    D = Data(d)
+    try:
+        base.get_data(D, return_paths=False)
+        base.get_data(D, return_paths=True)
+    except BaseException:
+        return True   # judged by check_case
+    for (dat, mul, order), (pt, obj) in built.items():
+        if dat is None and mul is None:
+            continue
+        res.count("evaluations")
+        res.state(key, "derived", dat, mul, order)
+        case = {"path": T.path(p[1]), "datum": dat, "multi": mul, "order": order, "doc": doc, "derived_after_evaluation": True}
+        outs = []
+        for which in ("derived", "prebuilt"):
+            o = []
+            for rp in (False, True):
+                res.count("transitions")
+                try:
+                    if which == "derived":
+                        q = base
+                        for s in ([dat, mul] if order == "dm" else [mul, dat]):
+                            if s is not None:
+                                q = getattr(q, s)()
+                    else:
+                        q = obj
+                    o.append(("ok", vsnap(q.get_data(D, return_paths=rp))))
+                except BaseException as e:
+                    o.append(("raises", type(e).__name__))
+            outs.append(o)
+        if outs[0] != outs[1]:
+            res.violation("derived-after-evaluation:%s/%s" % (dat, mul), "%s derived from an already evaluated path object gives a "
+                          "different result on %r than the same path built before any evaluation" % (T.show(pt), doc), case,
+                          observed=outs[0], expected=outs[1])
+            return False
+        res.count("validated")
+    return True
 
 
 def check_case(res, pt, obj, combo, d, doc, sel, conc, key):
